@@ -3,6 +3,7 @@ package colvet
 import (
 	"fmt"
 	"os"
+	"runtime"
 	"path/filepath"
 	"sort"
 	"strings"
@@ -41,6 +42,16 @@ func Main(repo, verifDir, property, tier, onlyKey string, t0 time.Time) int {
 		archs = append(archs, "arm64")
 	}
 	exit := 0
+	witness := map[string][]WitnessResult{}
+	if tier == "thorough" && onlyKey == "" && !KeysOnly {
+		for _, id := range ids {
+			res, code := RunWitnesses(repo, verifDir, id)
+			witness[id] = res
+			if code > exit {
+				exit = code
+			}
+		}
+	}
 	for ai, arch := range archs {
 		p, err := Load(repo, arch)
 		if err != nil {
@@ -56,9 +67,14 @@ func Main(repo, verifDir, property, tier, onlyKey string, t0 time.Time) int {
 			spec := Specs[id]
 			r := NewReport(p, id, tier)
 			r.Shared = sh
+			r.Witness = witness[id]
+			r.Configs = []string{"GOARCH=" + runtimeArch()}
+			if tier == "thorough" {
+				r.Configs = append(r.Configs, "GOARCH=arm64")
+			}
 			spec.Run(r)
 			if arch != "" {
-				r.Note("second configuration GOARCH=%s", arch)
+				r.Note("this evidence file was written by the second configuration GOARCH=%s; the default configuration ran first with the same rules", arch)
 			}
 			// The evidence file is written by the last configuration analysed; both must pass.
 			out := r.Finish(verifDir, known, spec, time.Since(start), onlyKey)
@@ -69,6 +85,8 @@ func Main(repo, verifDir, property, tier, onlyKey string, t0 time.Time) int {
 	}
 	return exit
 }
+
+func runtimeArch() string { return runtime.GOARCH }
 
 // Shared caches whole-program analyses between the properties of one process.
 type Shared struct {
